@@ -1184,7 +1184,15 @@ def environment_sweeps(ctx, zb, ZipContext, pool):
     by_clause = {}
     for c in rej:
         by_clause.setdefault(c[5], []).append(c)
-    sample = [c for cl in sorted(by_clause) for c in by_clause[cl][:12]][:160] + acc[:100]
+    # round-robin over the clause combinations, those the entry-count clause does not already decide first
+    groups = sorted(by_clause, key=lambda cl: ("count" in cl.split("+"), len(cl.split("+")), cl))
+    picked = []
+    for rnd in range(8):
+        for cl in groups:
+            if rnd < len(by_clause[cl]) and len(picked) < 200:
+                picked.append(by_clause[cl][rnd])
+    sample = picked + acc[:100]
+    ctx.extra["env_validate_sample_clauses"] = {cl: sum(1 for c in picked if c[5] == cl) for cl in groups}
 
     def f_validate(case):
         nm, fields, flat, nmode, _, _ = case
